@@ -56,9 +56,15 @@ def install(eng):
             if type(n) is not int:
                 lim = eng.max_alloc
                 if eng.feasible(st, z3.UGT(n, lim)):
-                    m = eng.model_of(st, z3.UGT(n, lim))
-                    st.model = m
-                    raise PathEnd('resource', ('input-controlled-allocation', 'allocation size depends on input and can exceed %d bytes (e.g. %d)' % (lim, m.eval(n, model_completion=True).as_long()), st.where()))
+                    # the inputs that make the size exceed the bound end here as a resource event; the others go on (they used to
+                    # share the verdict of the big ones, which hid whatever the code does with a small damaged count)
+                    outs = eng.branch(st, z3.UGT(n, lim))
+                    if len(outs) == 2:
+                        s2 = outs[1][0]; s2.frames[-1].ip -= 1; work.append(s2)
+                    if outs[0][1]:
+                        m = eng.model_of(st)
+                        st.model = m
+                        raise PathEnd('resource', ('input-controlled-allocation', 'allocation size depends on input and can exceed %d bytes (e.g. %d)' % (lim, m.eval(n, model_completion=True).as_long()), st.where()))
                 n = addr_of(eng, st, n, 0, work, 600)
             if n > (1 << 28):
                 if st.input_tainted_alloc or n <= (1 << 40):
@@ -352,6 +358,35 @@ def install(eng):
             if f.fn.name.startswith('_ZNK5ezc3d') or f.fn.name.startswith('_ZN5ezc3d'): return f.fn.name
         return st.where()
     S['__vp_file_write'] = f_write
+    def f_write_some(eng, st, fr, a, work, ins):
+        """write as many leading bytes as the device takes (operator<<(streambuf*) inserts one character at a time): three outcomes under
+        the fault model - all n (returns n), none (0), or the first part (the first byte is stored and 1 is returned: how many were taken
+        does not matter to any stream flag, only that it is neither 0 nor n)"""
+        if st.fault is None: return f_write(eng, st, fr, a, work, ins)
+        h = st.handles[a[0]]; n = a[2]
+        if type(n) is not int: raise Unsupported('symbolic write length')
+        n = sx(n, 64)
+        if n <= 0: return 0
+        allok = z3.ULE(z3.BitVecVal(h[3] + n, 32), st.fault['off'])
+        outs = eng.branch(st, allok)
+        if len(outs) == 2:
+            s2 = outs[1][0]; s2.frames[-1].ip -= 1; work.append(s2)
+        if outs[0][1]:
+            return f_write(eng, st, fr, a, work, ins)          # (its own branch on the same condition is decided by the path condition)
+        none = z3.ULE(st.fault['off'], z3.BitVecVal(h[3], 32))
+        outs = eng.branch(st, none)
+        if len(outs) == 2:
+            s2 = outs[1][0]; s2.frames[-1].ip -= 1; work.append(s2)
+        st.faulted = True
+        if outs[0][1]:
+            st.event('fault', 'write refused', h[0], h[3]); return 0
+        o, off = st.find(a[1], 1)
+        data = st.files[h[0]]
+        if h[1] > len(data): data.extend([0] * (h[1] - len(data)))
+        data[h[1]:h[1] + 1] = o.data[off:off + 1]
+        h[1] += 1; h[3] += 1
+        st.event('fault', 'write accepted in part', h[0], h[3]); return 1
+    S['__vp_file_write_some'] = f_write_some
     def f_seek(eng, st, fr, a, work, ins):
         off = a[1]
         if type(off) is not int: off = addr_of(eng, st, off, 0, work, 600)
